@@ -16,7 +16,7 @@ std::vector<W> base_weights() {
             {"P_REQUEST", 3}, {"P_CREATE_PRIVATE", 1}, {"P_WRITE", 6}, {"P_FILL", 1}, {"P_DROP", 1}, {"P_COPY", 1},
             {"BAD_FACE", 0}, {"BAD_CELL", 0}, {"FORK_COPY", 0}, {"FORK_ASSIGN", 0}, {"FORK_CROSS", 0}, {"P_POS_PERSIST", 0}, {"FORK_SELF", 0}, {"DESTROY", 0}, {"USE", 0},
             {"P_CREATE_SHARED", 0}, {"P_CREATE_PERSISTENT", 0}, {"P_GET", 0}, {"P_EXISTS", 0}, {"P_SET_SHARED", 0}, {"P_SET_PERSISTENT", 0},
-            {"P_SET_NAME", 0}, {"P_MOVE", 0}, {"P_CLEAR_KIND", 0}, {"P_CLEAR_ALL", 0}, {"COLLAPSE", 0}, {"RESTART", 0}, {"ROUNDTRIP", 0}, {"FAULT_LOAD", 0}, {"SWEEP", 0}, {"SET_POS", 0}, {"BIG", 0}, {"BIG_VALENCE", 0}, {"OPEN_CELL", 0}, {"OBSERVE", 1}, {"RESERVE", 1}, {"ADD_PILLOW", 1}};
+            {"P_SET_NAME", 0}, {"P_MOVE", 0}, {"P_CLEAR_KIND", 0}, {"P_CLEAR_ALL", 0}, {"COLLAPSE", 0}, {"RESTART", 0}, {"ROUNDTRIP", 0}, {"FAULT_LOAD", 0}, {"SWEEP", 0}, {"SET_POS", 0}, {"BIG", 0}, {"BIG_VALENCE", 0}, {"OPEN_CELL", 0}, {"OBSERVE", 1}, {"RESERVE", 1}, {"ADD_PILLOW", 1}, {"ADD_FAN", 1}, {"FORK_ASSIGN_BARE", 0}};
 }
 void setw(std::vector<W> &w, const char *k, int v) { for (auto &x : w) if (!strcmp(x.kind, k)) x.w = v; }
 void mulw(std::vector<W> &w, const char *prefix, int num, int den = 1) { for (auto &x : w) if (!strncmp(x.kind, prefix, strlen(prefix))) x.w = x.w * num / den; }
@@ -42,12 +42,12 @@ struct HistWorld : World {
         if (prop == "C09") { setw(w, "SET_F", 0); setw(w, "SET_C", 0); setw(w, "ADD_TET", 18); setw(w, "BU", 3); setw(w, "DEL_C", 6); setw(w, "DEL_F", 4); setw(w, "ADD_PILLOW", 3); }
         if (prop == "C11") { setw(w, "BAD_FACE", 8); setw(w, "BAD_CELL", 8); mulw(w, "ADD_", 2); setw(w, "BU", 3); }
         if (prop == "C12") { setw(w, "BU", 12); mulw(w, "DEL_", 2); mulw(w, "SWAP_", 2); setw(w, "GC", 5); setw(w, "MODE", 4); }
-        if (prop == "C13") { setw(w, "FORK_COPY", 8); setw(w, "FORK_ASSIGN", 8); setw(w, "FORK_CROSS", 5); setw(w, "P_POS_PERSIST", 2); setw(w, "FORK_SELF", 2); setw(w, "DESTROY", 3); setw(w, "USE", 8);
+        if (prop == "C13") { setw(w, "FORK_COPY", 8); setw(w, "FORK_ASSIGN", 8); setw(w, "FORK_CROSS", 5); setw(w, "FORK_ASSIGN_BARE", 3); setw(w, "P_POS_PERSIST", 2); setw(w, "FORK_SELF", 2); setw(w, "DESTROY", 3); setw(w, "USE", 8);
                              setw(w, "P_CREATE_PERSISTENT", 4); setw(w, "P_CREATE_SHARED", 2); mulw(w, "P_W", 2); }
         if (prop == "C14") { mulw(w, "ADD_", 1, 4); mulw(w, "DEL_", 1, 3); mulw(w, "SWAP_", 1, 2);
                              for (const char *k : {"P_REQUEST", "P_CREATE_SHARED", "P_CREATE_PERSISTENT", "P_CREATE_PRIVATE", "P_GET", "P_EXISTS", "P_SET_SHARED", "P_SET_PERSISTENT"}) setw(w, k, 8);
                              setw(w, "P_SET_NAME", 3); setw(w, "P_MOVE", 3); setw(w, "P_COPY", 5); setw(w, "P_DROP", 8); setw(w, "P_CLEAR_KIND", 2); setw(w, "P_CLEAR_ALL", 1);
-                             setw(w, "CLEAR", 2); setw(w, "FORK_COPY", 3); setw(w, "FORK_ASSIGN", 2); setw(w, "DESTROY", 3); setw(w, "USE", 4); }
+                             setw(w, "CLEAR", 2); setw(w, "FORK_COPY", 3); setw(w, "FORK_ASSIGN", 2); setw(w, "FORK_ASSIGN_BARE", 1); setw(w, "DESTROY", 3); setw(w, "USE", 4); }
         if (prop == "C15") { setw(w, "COLLAPSE", 8); mulw(w, "DEL_", 2); setw(w, "BAD_CELL", 2); setw(w, "BAD_FACE", 2); }
         if (prop == "C16") { setw(w, "ADD_HEX", 16); mulw(w, "DEL_", 2); setw(w, "BAD_CELL", 2); setw(w, "BAD_FACE", 2); }
         if (prop == "C17") { mulw(w, "SWAP_", 6); mulw(w, "DEL_", 2); setw(w, "BU", 3); }
@@ -57,6 +57,8 @@ struct HistWorld : World {
         if (prop == "C01") setw(w, "RESTART", 1);
         if (prop == "C20") { setw(w, "BU", 0); setw(w, "CLEAR", 0); setw(w, "P_REQUEST", 6); setw(w, "P_CREATE_PERSISTENT", 2); len_cap = 40; }
         if (p.kernel != "poly") setw(w, "ADD_PILLOW", 0);
+        if (p.kernel == "hex") setw(w, "ADD_FAN", 0);
+        p.cfg["fan_big"] = cfg.chance(prop == "C20" || prop == "C05" || prop == "C01" || prop == "C09" ? 0.35 : 0.12) ? 1 : 0;
         if (p.kernel == "tet") { setw(w, "ADD_HEX", 0); setw(w, "ADD_PRISM", 0); setw(w, "ADD_PYR", 0); setw(w, "SET_F", 0); setw(w, "SET_C", 0); }
         if (p.kernel == "hex") { setw(w, "ADD_TET", 0); setw(w, "ADD_PRISM", 0); setw(w, "ADD_PYR", 0); setw(w, "SET_F", 0); setw(w, "SET_C", 0); for (auto &x : w) if (!strcmp(x.kind, "ADD_HEX")) x.w = std::max(x.w, 12); }
         // swarm: every run turns some op kinds off and emphasises others
@@ -64,7 +66,7 @@ struct HistWorld : World {
         for (auto &x : w) x.w *= fac[cfg.below(6)];
         // always keep a way to grow the mesh
         bool grow = false;
-        for (auto &x : w) if (!strncmp(x.kind, "ADD_", 4) && x.w > 0 && strcmp(x.kind, "ADD_V") && strcmp(x.kind, "ADD_E") && strcmp(x.kind, "ADD_PILLOW")) grow = true;
+        for (auto &x : w) if (!strncmp(x.kind, "ADD_", 4) && x.w > 0 && strcmp(x.kind, "ADD_V") && strcmp(x.kind, "ADD_E") && strcmp(x.kind, "ADD_PILLOW") && strcmp(x.kind, "ADD_FAN")) grow = true;
         if (!grow) setw(w, p.kernel == "hex" ? "ADD_HEX" : "ADD_TET", 10);
         p.cfg["deferred0"] = cfg.below(2); p.cfg["fast0"] = cfg.below(2);
         p.cfg["bu0"] = (prop == "C12" || prop == "C02" || prop == "C11" || prop == "C17" || prop == "C04" || prop == "C03") ? (cfg.chance(0.5) ? 7 : (long)cfg.below(8)) : 7;
